@@ -963,7 +963,13 @@ func (s *Service) ProcessRequest(ctx *core.Context, m map[string]interface{}, ou
 		if err != nil {
 			return nil, err
 		}
-		bs := []byte(fmt.Sprintf(`{"fact":%s,"id":"%s"}`, js, id))
+		// The id is the caller's string: it can contain quotes and
+		// backslashes, so it needs JSON escaping.
+		idjs, err := json.Marshal(id)
+		if err != nil {
+			return nil, err
+		}
+		bs := []byte(fmt.Sprintf(`{"fact":%s,"id":%s}`, js, idjs))
 
 		if _, err = out.Write(bs); err != nil {
 			core.Log(core.ERROR, ctx, "/api/loc/facts/get", "warning", err)
